@@ -1,3 +1,4 @@
+import I18n.Generated.TagsFmt
 import I18n.Model.Tags
 import I18n.Model.TagsLive
 import I18n.Driver.Util
@@ -55,6 +56,28 @@ def handle (op : String) (args : List String) : String :=
   | "escape", [x] =>
     match parseExtra x with
     | some e => s!"ok {hexCps (escape liveDb e)}"
+    | none => "bad-op"
+  -- `gescape` / `gpriority` / `gformat` / `gsformat`: the same over the definitions REGENERATED from lib/tags.py (Generated.TagsFmt)
+  | "gescape", [x] =>
+    match parseExtra x with
+    | some e => showFmt (I18n.Generated.TagsFmt._escape liveDb e)
+    | none => "bad-op"
+  | "gpriority", [s, c] =>
+    match Severity.ofRank s.toNat!, Certainty.ofRank c.toNat! with
+    | some s, some c =>
+      match I18n.Generated.TagsFmt.Tag.get_priority liveDb ⟨[], s, c⟩ with
+      | .ok l => s!"ok {String.ofList (l.map Char.ofNat)}"
+      | .error _ => "err"
+    | _, _ => "err bad-rank"
+  | "gformat", s :: c :: name :: path :: col :: on :: off :: extras =>
+    match Severity.ofRank s.toNat!, Certainty.ofRank c.toNat!, parseExtras extras with
+    | some s, some c, some xs =>
+      let t : Tag := ⟨unhexCps name, s, c⟩
+      showFmt (I18n.Generated.TagsFmt.Tag.format liveDb (unhexCps on, unhexCps off) t (unhexCps path) xs (col == "1"))
+    | _, _, _ => "bad-op"
+  | "gsformat", template :: rest =>
+    match parseSafeArgs rest with
+    | some (as, ks) => showFmt (I18n.Generated.TagsFmt.safe_format liveDb (unhexCps template) as ks)
     | none => "bad-op"
   | "reprs", [s] => s!"ok {hexCps (reprStr liveDb (unhexCps s))}"
   | "reprb", [b] => s!"ok {hexCps (reprBytes (if b == "-" then [] else Driver.unhex b))}"
